@@ -80,6 +80,12 @@ func cycleOracle(w *loop.World, prop string) []Finding {
 	if o == nil {
 		return nil
 	}
+	for _, g := range w.Removed {
+		parts := strings.SplitN(g, "|", 2)
+		if parts[0] == "only-copy" {
+			fs = append(fs, Finding{Clause: "never-orphaned", Sig: prop + ":shard-removed-with-only-copy", Detail: parts[1]})
+		}
+	}
 	opt := w.Cfg.Opt
 	if o.Panic != "" {
 		return []Finding{{Clause: "no-crash", Sig: prop + ":panic", Detail: o.Panic}}
@@ -210,6 +216,12 @@ func handoverOracle(w *loop.World) []Finding {
 // counters the sidecars report).
 func ghostOracle(w *loop.World) []Finding {
 	var fs []Finding
+	for _, g := range w.Removed {
+		parts := strings.SplitN(g, "|", 2)
+		if parts[0] == "hand-over-unfinished" {
+			fs = append(fs, Finding{Clause: "hand-over", Sig: "C05:loop:observed:source-removed-by-scale-down", Detail: parts[1]})
+		}
+	}
 	for _, g := range w.Ghost {
 		parts := strings.SplitN(g, "|", 2)
 		fs = append(fs, Finding{Clause: "hand-over", Sig: "C05:loop:observed:" + parts[0], Detail: parts[1] + " (scrapes counted by the harness, not by the sidecar)"})
